@@ -33,7 +33,8 @@
 (***************************************************************************)
 EXTENDS Integers, Sequences, FiniteSets, TLC
 
-CONSTANTS Chains,        \* design runs: the chains explored
+CONSTANTS BlockChoices(_),\* design runs: the blocks consensus may commit at a height
+          MaxLen,        \* design runs: longest chain explored
           Starts,        \* heights at which the service may be enabled (index empty)
           MaxCrashes,
           Atomic,        \* TRUE: one atomic batch per block (the real KVIndexer); FALSE: each write hits the database at once
@@ -161,33 +162,41 @@ ViaIdxTx(kv, ch, h, i) ==
 (***************************************************************************)
 (* The indexing service.                                                   *)
 (***************************************************************************)
-VARIABLES chain, tip, start, kv, pending, up, cur, pos, next, crashes, skipped
-vars == <<chain, tip, start, kv, pending, up, cur, pos, next, crashes, skipped>>
+VARIABLES chain,    \* the committed blocks (grows: "for all chains" = every way consensus may extend it)
+          start,    \* chain height when the service was enabled (-1: not yet); the index covers the blocks after it
+          kv, pending, up, cur, pos, next, crashes, skipped
+vars == <<chain, start, kv, pending, up, cur, pos, next, crashes, skipped>>
+tip == Len(chain)
 
 Init ==
-  /\ chain \in Chains
-  /\ start \in Starts /\ start <= Len(chain)
-  /\ tip = start
-  /\ kv = EmptyKv /\ pending = <<>> /\ up = TRUE /\ cur = 0 /\ pos = 0
-  /\ next = start + 1
+  /\ chain = <<>> /\ start = -1
+  /\ kv = EmptyKv /\ pending = <<>> /\ up = FALSE /\ cur = 0 /\ pos = 0
+  /\ next = 0
   /\ crashes = 0 /\ skipped = {}
 
-(* consensus commits the next block *)
+(* consensus commits the next block, whatever its transactions and their outcomes *)
 Commit ==
-  /\ tip < Len(chain) /\ tip' = tip + 1
-  /\ UNCHANGED <<chain, start, kv, pending, up, cur, pos, next, crashes, skipped>>
+  /\ Len(chain) < MaxLen
+  /\ \E b \in BlockChoices(Len(chain) + 1) : chain' = Append(chain, b)
+  /\ UNCHANGED <<start, kv, pending, up, cur, pos, next, crashes, skipped>>
+
+(* the operator enables the indexing service for the first time (empty index): it covers the blocks from now on *)
+Enable ==
+  /\ start = -1 /\ Len(chain) \in Starts
+  /\ start' = Len(chain) /\ up' = TRUE /\ next' = Len(chain) + 1
+  /\ UNCHANGED <<chain, kv, pending, cur, pos, crashes, skipped>>
 
 (* the service opens the batch of the next block *)
 BeginBatch(h) ==
   /\ up /\ cur = 0 /\ h = next /\ h <= tip
   /\ cur' = h /\ pos' = 1 /\ pending' = <<>>
-  /\ UNCHANGED <<chain, tip, start, kv, up, next, crashes, skipped>>
+  /\ UNCHANGED <<chain, start, kv, up, next, crashes, skipped>>
 
 (* out-of-order re-indexing of a block that has been indexed before (index-eth-tx command) *)
 Reindex(h) ==
   /\ AllowReindex /\ up /\ cur = 0 /\ h \in (start + 1)..(next - 1) /\ h \notin skipped
   /\ cur' = h /\ pos' = 1 /\ pending' = <<>>
-  /\ UNCHANGED <<chain, tip, start, kv, up, next, crashes, skipped>>
+  /\ UNCHANGED <<chain, start, kv, up, next, crashes, skipped>>
 
 (* one physical write: into the batch, or - were the indexer not batching - into the database *)
 PhysWrite ==
@@ -197,7 +206,7 @@ PhysWrite ==
        /\ IF Atomic THEN pending' = Append(pending, ws[pos]) /\ kv' = kv
                     ELSE kv' = ApplyWrite(kv, ws[pos]) /\ pending' = pending
   /\ pos' = pos + 1
-  /\ UNCHANGED <<chain, tip, start, up, cur, next, crashes, skipped>>
+  /\ UNCHANGED <<chain, start, up, cur, next, crashes, skipped>>
 
 (* the batch is written: all its operations reach the database atomically *)
 Flush ==
@@ -205,38 +214,38 @@ Flush ==
   /\ kv' = ApplyWrites(kv, pending)
   /\ pending' = <<>> /\ cur' = 0 /\ pos' = 0
   /\ next' = IF cur + 1 > next THEN cur + 1 ELSE next
-  /\ UNCHANGED <<chain, tip, start, up, crashes, skipped>>
+  /\ UNCHANGED <<chain, start, up, crashes, skipped>>
 
 (* the process dies between any two physical writes: memory (the open batch) is lost, the database keeps what was flushed *)
 Crash ==
   /\ up /\ crashes < MaxCrashes
   /\ up' = FALSE /\ pending' = <<>> /\ cur' = 0 /\ pos' = 0 /\ next' = 0
   /\ crashes' = crashes + 1
-  /\ UNCHANGED <<chain, tip, start, kv, skipped>>
+  /\ UNCHANGED <<chain, start, kv, skipped>>
 
 (* restart: resume after the last block found in the index; an index without any block means: nothing
    of the blocks after `start` has been indexed yet *)
 Restart ==
-  /\ ~up /\ up' = TRUE
+  /\ ~up /\ start # -1 /\ up' = TRUE
   /\ next' = (IF LastBlock(kv) = -1 THEN start ELSE LastBlock(kv)) + 1
-  /\ UNCHANGED <<chain, tip, start, kv, pending, cur, pos, crashes, skipped>>
+  /\ UNCHANGED <<chain, start, kv, pending, cur, pos, crashes, skipped>>
 
 (* Known deviation D18 (server/indexer_service.go OnStart): an empty index is taken for "index from the
    current chain height on", also on a restart: the blocks start+1 .. tip are never indexed. *)
 DevD18 == "Converges/empty-index-restart-skips-to-latest"
 Dev_D18_Restart ==
   /\ DevD18 \in Known
-  /\ ~up /\ LastBlock(kv) = -1 /\ up' = TRUE
+  /\ ~up /\ start # -1 /\ LastBlock(kv) = -1 /\ up' = TRUE
   /\ next' = tip + 1
   /\ skipped' = skipped \cup ((start + 1)..tip)
-  /\ UNCHANGED <<chain, tip, start, kv, pending, cur, pos, crashes>>
+  /\ UNCHANGED <<chain, start, kv, pending, cur, pos, crashes>>
 
 Next ==
-  \/ Commit
+  \/ Commit \/ Enable
   \/ \E h \in 1..Len(chain) : BeginBatch(h) \/ Reindex(h)
   \/ PhysWrite \/ Flush \/ Crash \/ Restart \/ Dev_D18_Restart
 
-Progress == Commit \/ (\E h \in 1..Len(chain) : BeginBatch(h)) \/ PhysWrite \/ Flush \/ Restart
+Progress == Commit \/ Enable \/ (\E h \in 1..Len(chain) : BeginBatch(h)) \/ PhysWrite \/ Flush \/ Restart
 
 Spec == Init /\ [][Next]_vars /\ WF_vars(Progress)
 
@@ -249,7 +258,7 @@ CaughtUp == up /\ cur = 0 /\ next > tip
 Converges == CaughtUp => kv = IndexSkip(chain, start, tip, skipped)
 
 (* ... and catch-up is always reached (crashes are finitely many) *)
-EventuallyCaughtUp == <>[](tip = Len(chain) => CaughtUp)
+EventuallyCaughtUp == <>[](start # -1 => CaughtUp)
 
 (* by hash and by (height, index) agree with each other and with the real position *)
 LookupAgree ==
